@@ -277,3 +277,8 @@ package utils
 //@ func (*Converter).ConvertNotificationTypedValues
 //@   props C20
 //@   requires c != nil && c.schemaClientBound != nil
+
+// C10: marking an XML element with an operation touches the element (a library object) only
+//@ func AddXMLOperation
+//@   props C10 C20
+//@   modifies nothing
